@@ -8,28 +8,50 @@ use std::mem::ManuallyDrop;
 pub struct C20;
 
 #[derive(Clone, Copy, Debug, PartialEq)]
-enum Op { Generate, FromBytes, Clone(usize), Drop(usize) }
+enum Op { Generate, FromBytes, Clone(usize), Drop(usize), Unwind(usize) }   // Unwind(i): container i is dropped by stack unwinding out of a panic
 
-fn ops_alphabet(slots: usize) -> Vec<Op> { let mut v = vec![Op::Generate, Op::FromBytes]; for i in 0..slots { v.push(Op::Clone(i)); v.push(Op::Drop(i)); } v }
-fn op_str(o: &Op) -> String { match o { Op::Generate => "gen".into(), Op::FromBytes => "from".into(), Op::Clone(i) => format!("clone{}", i), Op::Drop(i) => format!("drop{}", i) } }
+fn ops_alphabet(slots: usize) -> Vec<Op> { let mut v = vec![Op::Generate, Op::FromBytes]; for i in 0..slots { v.push(Op::Clone(i)); v.push(Op::Drop(i)); } v.push(Op::Unwind(0)); v.push(Op::Unwind(1)); v }
+fn op_str(o: &Op) -> String { match o { Op::Generate => "gen".into(), Op::FromBytes => "from".into(), Op::Clone(i) => format!("clone{}", i), Op::Drop(i) => format!("drop{}", i), Op::Unwind(i) => format!("unwind{}", i) } }
 
 /// run a program on PrivateKey values; returns Err(description) on the first violation
 fn run_private(prog: &[Op]) -> Result<usize, String> {
-    crate::drops::clear();
+    kalloc::drops::clear();
     let mut live: Vec<Option<(PrivateKey, Vec<u8>)>> = vec![];   // (container, expected secret)
     let mut released = 0usize;
     for (step, op) in prog.iter().enumerate() {
         match op {
-            Op::Generate => { let k = PrivateKey::generate(); let b = k.as_bytes().to_vec(); crate::drops::watch(k.as_bytes().as_ptr() as usize, 32); live.push(Some((k, b))); }
-            Op::FromBytes => { let raw: Vec<u8> = (0..32).map(|i| (step * 37 + i * 11 + 1) as u8).collect(); let k = PrivateKey::try_from(raw.as_slice()).unwrap(); crate::drops::watch(k.as_bytes().as_ptr() as usize, 32); live.push(Some((k, raw))); }
-            Op::Clone(i) => { if let Some(Some((k, b))) = live.get(*i) { let c = k.clone(); if c.as_bytes().as_ptr() == k.as_bytes().as_ptr() { return Err(format!("step {}: clone shares its buffer with the original", step)); } crate::drops::watch(c.as_bytes().as_ptr() as usize, 32); let b = b.clone(); live.push(Some((c, b))); } }
-            Op::Drop(i) => { if let Some(slot) = live.get_mut(*i) { if let Some((k, _)) = slot.take() { let addr = k.as_bytes().as_ptr() as usize; drop(k);
-                let seen = crate::drops::take_seen();
+            Op::Generate => { let k = PrivateKey::generate(); let b = k.as_bytes().to_vec(); kalloc::drops::watch(k.as_bytes().as_ptr() as usize, 32); live.push(Some((k, b))); }
+            Op::FromBytes => { let raw: Vec<u8> = (0..32).map(|i| (step * 37 + i * 11 + 1) as u8).collect(); let k = PrivateKey::try_from(raw.as_slice()).unwrap(); kalloc::drops::watch(k.as_bytes().as_ptr() as usize, 32); live.push(Some((k, raw))); }
+            Op::Clone(i) => { if let Some(Some((k, b))) = live.get(*i) { let c = k.clone(); if c.as_bytes().as_ptr() == k.as_bytes().as_ptr() { return Err(format!("step {}: clone shares its buffer with the original", step)); } kalloc::drops::watch(c.as_bytes().as_ptr() as usize, 32); let b = b.clone(); live.push(Some((c, b))); } }
+            Op::Drop(i) | Op::Unwind(i) => { if let Some(slot) = live.get_mut(*i) { if let Some((k, _)) = slot.take() { let addr = k.as_bytes().as_ptr() as usize;
+                if matches!(op, Op::Unwind(_)) { let r = std::panic::catch_unwind(std::panic::AssertUnwindSafe(move || { let _held = k; panic!("fault while a key is alive"); })); let _ = r; } else { drop(k); }
+                let seen = kalloc::drops::take_seen();
                 match seen.iter().find(|(a, _)| *a == addr) { None => return Err(format!("step {}: the key's buffer was not released by drop", step)),
                     Some((_, bytes)) => { released += 1; if bytes.iter().any(|&x| x != 0) { return Err(format!("step {} ({}): released buffer still holds secret bytes {}", step, op_str(op), hex(bytes))); } } } } } }
         }
         // dropping one container must not disturb the others
         for (j, s) in live.iter().enumerate() { if let Some((k, b)) = s { if k.as_bytes() != &b[..] { return Err(format!("step {}: container {} changed after {}", step, j, op_str(op))); } } }
+    }
+    Ok(released)
+}
+
+/// PayloadKey values living on the heap (Box<PayloadKey>): the allocator sees the block at the moment it is freed
+fn run_payload_boxed(prog: &[Op]) -> Result<usize, String> {
+    kalloc::drops::clear();
+    let mut live: Vec<Option<(Box<PayloadKey>, Vec<u8>)>> = vec![];
+    let mut released = 0usize;
+    let sz = std::mem::size_of::<PayloadKey>();
+    for (step, op) in prog.iter().enumerate() {
+        match op {
+            Op::Generate | Op::FromBytes => { let raw: Vec<u8> = if *op == Op::Generate { kestrel_crypto::secure_random(32) } else { (0..32).map(|i| (step * 53 + i * 7 + 3) as u8).collect() }; let b = Box::new(PayloadKey::new(&raw)); kalloc::drops::watch(&*b as *const PayloadKey as usize, sz); live.push(Some((b, raw))); }
+            Op::Clone(i) => { if let Some(Some((k, b))) = live.get(*i) { let c = Box::new((**k).clone()); kalloc::drops::watch(&*c as *const PayloadKey as usize, sz); let b = b.clone(); live.push(Some((c, b))); } }
+            Op::Drop(i) | Op::Unwind(i) => { if let Some(slot) = live.get_mut(*i) { if let Some((k, _)) = slot.take() { let addr = &*k as *const PayloadKey as usize;
+                if matches!(op, Op::Unwind(_)) { let _ = std::panic::catch_unwind(std::panic::AssertUnwindSafe(move || { let _held = k; panic!("fault while a key is alive"); })); } else { drop(k); }
+                let seen = kalloc::drops::take_seen();
+                match seen.iter().find(|(a, _)| *a == addr) { None => return Err(format!("step {}: the boxed key was not released", step)),
+                    Some((_, bytes)) => { released += 1; if bytes.iter().any(|&x| x != 0) { return Err(format!("step {} ({}): heap block of a PayloadKey released while still holding {}", step, op_str(op), hex(bytes))); } } } } } }
+        }
+        for (j, s) in live.iter().enumerate() { if let Some((k, b)) = s { if k.as_bytes() != &b[..] { return Err(format!("step {}: payload key {} changed after {}", step, j, op_str(op))); } } }
     }
     Ok(released)
 }
@@ -41,7 +63,7 @@ fn run_payload(prog: &[Op]) -> Result<usize, String> {
         match op {
             Op::Generate | Op::FromBytes => { let raw: Vec<u8> = if *op == Op::Generate { kestrel_crypto::secure_random(32) } else { (0..32).map(|i| (step * 53 + i * 7 + 3) as u8).collect() }; live.push(Some((Box::new(ManuallyDrop::new(PayloadKey::new(&raw))), raw))); }
             Op::Clone(i) => { if let Some(Some((k, b))) = live.get(*i) { let c: PayloadKey = (***k).clone(); let b = b.clone(); live.push(Some((Box::new(ManuallyDrop::new(c)), b))); } }
-            Op::Drop(i) => { if let Some(slot) = live.get_mut(*i) { if let Some((mut k, _)) = slot.take() {
+            Op::Drop(i) | Op::Unwind(i) => { if let Some(slot) = live.get_mut(*i) { if let Some((mut k, _)) = slot.take() {
                 // drop in place, then look at the bytes the value occupied (the Box keeps the storage alive)
                 let p = (&**k as *const PayloadKey) as *const u8;
                 unsafe { ManuallyDrop::drop(&mut *k); }
@@ -57,15 +79,15 @@ fn run_payload(prog: &[Op]) -> Result<usize, String> {
 impl Prop for C20 {
     fn id(&self) -> &'static str { "C20" }
     fn rule(&self) -> String {
-        "all programs of up to 5 (quick) / 6 (thorough) operations over {generate, from-bytes, clone i, drop i} with up to 3 live slots, run on real PrivateKey values (heap buffer watched by a global allocator: contents inspected at the moment of deallocation) \
-         and on PayloadKey values (dropped in place inside a ManuallyDrop slot, bytes read afterwards); every release must carry zeros, clones must own their own buffer, dropping one container must not change another; \
+        "all programs of up to 5 (quick) / 6 (thorough) operations over {generate, from-bytes, clone i, drop i, unwind i (the container is dropped by stack unwinding out of a panic)} with up to 3 live slots, run on real PrivateKey values (heap buffer watched by a global allocator: contents inspected at the moment of deallocation) \
+         on PayloadKey values dropped in place inside a ManuallyDrop slot (bytes read afterwards) and on heap-resident Box<PayloadKey> values (block inspected by the allocator, which lives in a crate of its own so that the optimiser cannot see through it); every release must carry zeros, clones must own their own buffer, dropping one container must not change another; \
          plus the library's own use: after key_encrypt / key_decrypt return, no live heap block of the call holds the payload key. non-trivial = distinct program with at least one drop".into()
     }
     fn cases(&self, tier: &str, _seed: u64) -> Vec<Case> {
         let maxlen = if tier == "thorough" { 6 } else { 5 };
         let alpha = ops_alphabet(3).len();
         let mut v = vec![];
-        for ty in ["private", "payload"] {
+        for ty in ["private", "payload", "payload-boxed"] {
             let mut total = 0usize; let mut p = 1usize;
             for _ in 0..=maxlen { total += p; p *= alpha; }
             // programs are enumerated by index; those without a drop are skipped inside `run` cheaply — to keep the count manageable, stride in quick
@@ -81,7 +103,7 @@ impl Prop for C20 {
         while idx >= p { idx -= p; p *= n; len += 1; }
         let prog: Vec<Op> = (0..len).map(|_| { let o = alpha[idx % n]; idx /= n; o }).collect();
         let text = prog.iter().map(op_str).collect::<Vec<_>>().join(",");
-        let r = if get(c, "ty") == "private" { run_private(&prog) } else { run_payload(&prog) };
+        let r = match get(c, "ty") { "private" => run_private(&prog), "payload" => run_payload(&prog), _ => run_payload_boxed(&prog) };
         o.model_obs = "every release carries zeros (C20_lifecycle)".into();
         match r {
             Ok(rel) => { o.impl_obs = format!("[{}]: {} releases, all zero", text, rel); if rel > 0 { o.nontrivial = Some(format!("{}/{}", get(c, "ty"), text)); o.validated += 1; } o.tags.push(format!("{} releases={}", get(c, "ty"), rel.min(3))); }
